@@ -156,6 +156,8 @@ func (w *World) bindNames() {
 		"v3":           "github.com/pb33f/libopenapi/datamodel/high/v3",
 		"yaml":         "go.yaml.in/yaml/v4",
 		"json":         "encoding/json",
+		"time":         "time",
+		"utf8":         "unicode/utf8",
 		"context":      "context",
 	}
 	for name, path := range alias {
